@@ -251,60 +251,43 @@ Definition cur_ok (dirs : list path) (cur : option mfp) (t : pobj) : Prop :=
   | None => match t with PObj _ _ _ PInherit _ _ _ _ _ => False | _ => True end
   end.
 
-Lemma f6_at_rel : forall cwd f, f6_at cwd f = false -> exists s, rel_filepath cwd f = Done s.
+Lemma under_pkg_nonempty : forall dirs l, under_pkg dirs (MList l) = true -> l <> [].
+Proof. intros dirs [|d l] H; [discriminate|discriminate]. Qed.
+
+(* relative_filepath never raises for a module that has a file or at least one directory (since fix bb0db70) *)
+Lemma rel_filepath_total : forall cwd f, f <> MList [] -> exists s, rel_filepath cwd f = Done s.
 Proof.
-  intros cwd [p|l] H; simpl in *.
+  intros cwd [p|l] H; simpl.
   - destruct (relative_to p cwd); eauto.
-  - apply negb_false_iff in H. apply existsb_exists in H. destruct H as [p [Hp Hb]]. apply is_below_relative in Hb.
-    destruct Hb as [r Hr]. destruct (first_some_exists _ _ (fun p => relative_to p cwd) l p r Hp Hr) as [z ->]. eauto.
+  - destruct (first_some (fun p => relative_to p cwd) l); [eauto|]. destruct l; [now contradiction H|eauto].
 Qed.
 
-Lemma f6_at_err : forall cwd f, f6_at cwd f = true -> rel_filepath cwd f = Raised ErrRelFilepath.
-Proof.
-  intros cwd [p|l] H; simpl in *; [discriminate|].
-  apply negb_true_iff in H. rewrite first_some_none; [reflexivity|].
-  intros x Hx. destruct (relative_to x cwd) as [r|] eqn:E; [|reflexivity].
-  assert (X : existsb (fun p => is_below cwd p) l = true).
-  { apply existsb_exists. exists x. split; [assumption|]. unfold is_below. now rewrite E. }
-  congruence.
-Qed.
-
-(* no builtin module, every module file below a directory of the package: the dump raises iff the F6 situation occurs,
-   and then with the relative_filepath error *)
-Theorem derive_exact : forall cwd pkg t cur,
+(* no builtin module, every module file below a directory of the package: the three path fields of every object exist *)
+Theorem derive_total : forall cwd pkg t cur,
   placed (pkg_dirs pkg) t = true -> no_builtin t = true -> cur_ok (pkg_dirs pkg) cur t ->
-  if f6_gap cwd cur t then derive cwd pkg cur t = Raised ErrRelFilepath else exists o, derive cwd pkg cur t = Done o.
+  exists o, derive cwd pkg cur t = Done o.
 Proof.
   intros cwd pkg t.
   induction t as [name target path lineno endlineno|spec name path fp lineno endlineno doc labels members IH] using pobj_ind';
     intros cur Hp Hb Hc.
   - simpl. eauto.
-  - rewrite derive_eq. cbn [f6_gap]. cbn [placed] in Hp. cbn [no_builtin] in Hb.
+  - rewrite derive_eq. cbn [placed] in Hp. cbn [no_builtin] in Hb.
     apply andb_true_iff in Hp. destruct Hp as [Hp Hpm]. apply andb_true_iff in Hb. destruct Hb as [Hb Hbm].
     assert (X : exists f, effective cur fp = Some f /\ under_pkg (pkg_dirs pkg) f = true).
     { destruct fp as [f| |]; simpl in *; [eauto|discriminate|]. destruct cur as [c|]; [eauto|contradiction]. }
     destruct X as [f [-> Hu]].
-    destruct (f6_at cwd f) eqn:F6.
-    + simpl. now rewrite (f6_at_err _ _ F6).
-    + simpl. destruct (f6_at_rel _ _ F6) as [relf ->].
-      unfold rel_package_filepath. destruct (relpf_total pkg f Hu) as [r ->].
-      clear Hp Hb Hc F6.
-      assert (Y : if existsb (fun nm => f6_gap cwd (Some f) (snd nm)) members
-                  then dmembers cwd pkg f members = Raised ErrRelFilepath
-                  else exists ms, dmembers cwd pkg f members = Done ms).
-      { induction members as [|[n m] r' IHr]; [simpl; eauto|].
-        inversion IH as [|x l IH1 IH2]; subst. simpl in IH1.
-        simpl in Hpm, Hbm. apply andb_true_iff in Hpm. destruct Hpm as [Hpm1 Hpm2].
-        apply andb_true_iff in Hbm. destruct Hbm as [Hbm1 Hbm2].
-        specialize (IH1 (Some f) Hpm1 Hbm1 Hu). specialize (IHr IH2 Hpm2 Hbm2).
-        simpl. destruct (f6_gap cwd (Some f) m).
-        - simpl. now rewrite IH1.
-        - simpl. destruct IH1 as [m' ->]. destruct (existsb (fun nm => f6_gap cwd (Some f) (snd nm)) r').
-          + now rewrite IHr.
-          + destruct IHr as [ms ->]. eauto. }
-      destruct (existsb (fun nm => f6_gap cwd (Some f) (snd nm)) members).
-      * now rewrite Y.
-      * destruct Y as [ms ->]. eauto.
+    assert (Hne : f <> MList []) by (intros ->; discriminate).
+    destruct (rel_filepath_total cwd f Hne) as [relf ->].
+    unfold rel_package_filepath. destruct (relpf_total pkg f Hu) as [r ->].
+    clear Hp Hb Hc.
+    assert (Y : exists ms, dmembers cwd pkg f members = Done ms).
+    { induction members as [|[n m] r' IHr]; [simpl; eauto|].
+      inversion IH as [|x l IH1 IH2]; subst. simpl in IH1.
+      simpl in Hpm, Hbm. apply andb_true_iff in Hpm. destruct Hpm as [Hpm1 Hpm2].
+      apply andb_true_iff in Hbm. destruct Hbm as [Hbm1 Hbm2].
+      destruct (IH1 (Some f) Hpm1 Hbm1 Hu) as [m' Hm']. destruct (IHr IH2 Hpm2 Hbm2) as [ms Hms].
+      simpl. rewrite Hm', Hms. eauto. }
+    destruct Y as [ms ->]. eauto.
 Qed.
 
 Lemma placed_top_spec : forall spec name path f lineno endlineno doc labels members,
@@ -315,63 +298,58 @@ Proof.
   cbn [placed]. rewrite Hm. now rewrite (top_under_itself f Hne).
 Qed.
 
-(* The dump of a package whose module files lie below the package's directories (what the loader finds by iterating
-   them) and that holds no builtin module:
-   - raises exactly in the C09-F6 situation (a namespace (sub)package none of whose directories is below the cwd), with the
-     relative_filepath ValueError;
-   - otherwise produces a document, and the document validates. *)
-Theorem dump_exact : forall cwd t,
-  placed_top t = true -> no_builtin t = true -> phas_object t = false ->
-  if f6_gap cwd None t then dump cwd t = Raised ErrRelFilepath else exists j, dump cwd t = Done j.
+Lemma derive_top_total : forall cwd t, placed_top t = true -> no_builtin t = true -> exists o, derive_top cwd t = Done o.
 Proof.
-  intros cwd t Hp Hb Ho. unfold dump.
+  intros cwd t Hp Hb.
   destruct t as [name target path lineno endlineno|spec name path fp lineno endlineno doc labels members]; [simpl; eauto|].
   destruct fp as [f| |]; try discriminate.
-  pose proof (derive_exact cwd f _ None (placed_top_spec _ _ _ _ _ _ _ _ _ Hp) Hb I) as X.
-  cbn [derive_top]. destruct (f6_gap cwd None _).
-  - now rewrite X.
-  - destruct X as [o Ho']. rewrite Ho'. rewrite (derive_has_object _ _ _ _ _ Ho'), Ho. eauto.
+  exact (derive_total cwd f _ None (placed_top_spec _ _ _ _ _ _ _ _ _ Hp) Hb I).
 Qed.
 
-(* an object json cannot serialise makes the dump raise TypeError whenever the paths are fine (C09-F8, second form) *)
-Theorem dump_object : forall cwd t,
-  placed_top t = true -> no_builtin t = true -> f6_gap cwd None t = false -> phas_object t = true ->
-  dump cwd t = Raised ErrNotSerializable.
+(* The dump of a package whose module files lie below the package's directories (what the loader finds by iterating them)
+   and that holds no builtin module, from ANY working directory: raises TypeError iff it holds an object json has no rule
+   for (only trees assembled through the API do), otherwise produces a document. *)
+Theorem dump_exact_full : forall cwd t,
+  placed_top t = true -> no_builtin t = true ->
+  if phas_object t then dump cwd t = Raised ErrNotSerializable else exists j, dump cwd t = Done j.
 Proof.
-  intros cwd t Hp Hb H6 Ho. unfold dump.
-  destruct t as [name target path lineno endlineno|spec name path fp lineno endlineno doc labels members]; [discriminate|].
-  destruct fp as [f| |]; try discriminate.
-  pose proof (derive_exact cwd f _ None (placed_top_spec _ _ _ _ _ _ _ _ _ Hp) Hb I) as X.
-  rewrite H6 in X. destruct X as [o Ho']. cbn [derive_top]. rewrite Ho'. now rewrite (derive_has_object _ _ _ _ _ Ho'), Ho.
+  intros cwd t Hp Hb. unfold dump. destruct (derive_top_total cwd t Hp Hb) as [o Ho]. rewrite Ho.
+  assert (E : has_object o = phas_object t).
+  { destruct t as [name target path lineno endlineno|spec name path fp lineno endlineno doc labels members];
+      [simpl in Ho; inversion Ho; reflexivity|].
+    destruct fp as [f| |]; try discriminate. exact (derive_has_object _ _ _ _ _ Ho). }
+  rewrite E. destruct (phas_object t); eauto.
 Qed.
 
 Theorem dump_total_modulo_known : forall cwd t,
-  ploadable t = true -> no_builtin t = true -> f7_gap t = false -> f6_gap cwd None t = false ->
+  ploadable t = true -> no_builtin t = true -> f7_gap t = false ->
   exists j, dump cwd t = Done j /\ exists fuel, validates_doc fuel j = Some true.
 Proof.
-  intros cwd t Hl Hb H7 H6. unfold f7_gap in H7. apply negb_false_iff in H7.
-  pose proof (dump_exact cwd t H7 Hb (ploadable_no_object t Hl)) as X. rewrite H6 in X. destruct X as [j Hj].
+  intros cwd t Hl Hb H7. unfold f7_gap in H7. apply negb_false_iff in H7.
+  pose proof (dump_exact_full cwd t H7 Hb) as X. rewrite (ploadable_no_object t Hl) in X. destruct X as [j Hj].
   exists j. split; [assumption|]. eapply dump_validates; eauto.
 Qed.
 
-(* ---------- refutations: the two situations in which a package loaded from disk has no full dump ---------- *)
+(* ---------- former finding C09-F6 (fixed by bb0db70): its witness now dumps from anywhere ---------- *)
 
-(* C09-F6: namespace package /w/ns (one portion) with a module, dumped from /elsewhere *)
+(* namespace package /w/ns (one portion) with a module, dumped from /elsewhere *)
 Definition f6_witness : pobj :=
   PObj KModule "ns" "ns" (POwn (MList [["w"; "ns"]])) None None None []
     [("m", PObj KModule "m" "ns.m" (POwn (MOne ["w"; "ns"; "m.py"])) None None None [] [])].
 
-Lemma f6_refutes : ploadable f6_witness = true /\ no_builtin f6_witness = true /\ f7_gap f6_witness = false
-  /\ f6_gap ["elsewhere"] None f6_witness = true /\ dump ["elsewhere"] f6_witness = Raised ErrRelFilepath
-  /\ exists j, dump ["w"] f6_witness = Done j.
-Proof. repeat split; try (vm_compute; reflexivity). eexists. vm_compute. reflexivity. Qed.
+Lemma f6_witness_dumps : ploadable f6_witness = true /\ no_builtin f6_witness = true /\ f7_gap f6_witness = false
+  /\ match dump ["elsewhere"] f6_witness with Done j => validates_doc 64 j = Some true | Raised _ => False end
+  /\ match dump ["w"] f6_witness with Done j => validates_doc 64 j = Some true | Raised _ => False end.
+Proof. repeat split; vm_compute; reflexivity. Qed.
+
+(* ---------- refutation: the situation in which a package loaded from disk has no full dump ---------- *)
 
 (* C09-F7: regular package /a/pkg merged with the stubs-only package /b/pkg-stubs, which has a module of its own *)
 Definition f7_witness : pobj :=
   PObj KModule "pkg" "pkg" (POwn (MOne ["a"; "pkg"; "__init__.py"])) None None None []
     [("only", PObj KModule "only" "pkg.only" (POwn (MOne ["b"; "pkg-stubs"; "only.pyi"])) None None None [] [])].
 
-Lemma f7_refutes : ploadable f7_witness = true /\ no_builtin f7_witness = true /\ f6_gap [] None f7_witness = false
+Lemma f7_refutes : ploadable f7_witness = true /\ no_builtin f7_witness = true
   /\ f7_gap f7_witness = true /\ forall cwd, dump cwd f7_witness = Raised ErrRelPackageFilepath.
 Proof.
   repeat split; try (vm_compute; reflexivity). intros cwd. unfold dump, f7_witness. cbn [derive_top]. rewrite derive_eq.
@@ -385,7 +363,7 @@ Qed.
 
 (* non-vacuity: a namespace package over three portions, modules in each, a nested namespace subpackage over two of
    them, a class with a method in a regular subpackage of the second portion; dumped from a directory above the first
-   portion only *)
+   portion only, above the second only, and from an unrelated one *)
 Definition three_portions : list path := [["w"; "first"; "ns"]; ["w"; "second"; "ns"]; ["w"; "third"; "ns"]].
 Definition ns_sample : pobj :=
   PObj KModule "ns" "ns" (POwn (MList three_portions)) None None None []
@@ -397,49 +375,30 @@ Definition ns_sample : pobj :=
      ("deep", PObj KModule "deep" "ns.deep" (POwn (place_dirs three_portions [0; 2] ["deep"])) None None None []
         [("z", PObj KModule "z" "ns.deep.z" (POwn (place_file three_portions 2 ["deep"; "z.py"])) None None None [] [])])].
 
-Example ns_sample_in_domain : ploadable ns_sample = true /\ no_builtin ns_sample = true /\ f7_gap ns_sample = false
-  /\ f6_gap ["w"; "first"] None ns_sample = false /\ f6_gap ["w"; "second"] None ns_sample = true.
+Example ns_sample_in_domain : ploadable ns_sample = true /\ no_builtin ns_sample = true /\ f7_gap ns_sample = false.
 Proof. repeat split; vm_compute; reflexivity. Qed.
 
-Example ns_sample_dumps : match dump ["w"; "first"] ns_sample with
-                          | Done j => validates_doc 64 j = Some true
-                          | Raised _ => False
-                          end.
+Example ns_sample_dumps :
+  forallb (fun cwd => match dump cwd ns_sample with Done j => match validates_doc 64 j with Some true => true | _ => false end | Raised _ => false end)
+          [["w"; "first"]; ["w"; "second"]; ["elsewhere"]; []] = true.
 Proof. vm_compute. reflexivity. Qed.
 
-(* C09-F8: what only dynamic inspection lets through. Module /w/m.py with `def f(x=K()): ...` where `K().__name__` is 3
-   (dumped as it is: invalid document), or is an object json has no rule for (TypeError). *)
-Definition inspected_module (params : list parameter) : pobj :=
+(* Trees only the API can build (the inspector let such defaults through until fix 5db8f3a): a parameter default that is not a
+   string is dumped as it is and the document does not validate; one json has no rule for makes json.dumps raise TypeError. *)
+Definition api_module (params : list parameter) : pobj :=
   PObj KModule "m" "m" (POwn (MOne ["w"; "m.py"])) None None None []
     [("f", PObj (KFunction [] params ANone) "f" "m.f" PInherit None None None [] [])].
 
-Definition f8_witness : pobj := inspected_module [mkParam "x" ANone (Some "positional or keyword") (ARaw (JInt 3)) None].
-Definition f8_object_witness : pobj := inspected_module [mkParam "x" ANone (Some "positional or keyword") AObject None].
+Definition raw_default_tree : pobj := api_module [mkParam "x" ANone (Some "positional or keyword") (ARaw (JInt 3)) None].
+Definition object_default_tree : pobj := api_module [mkParam "x" ANone (Some "positional or keyword") AObject None].
 
-Lemma f8_refutes : ploadable f8_witness = false /\ no_builtin f8_witness = true /\ f7_gap f8_witness = false
-  /\ f6_gap ["w"] None f8_witness = false
-  /\ exists j, dump ["w"] f8_witness = Done j /\ forall fuel, validates_doc fuel j <> Some true.
+Lemma raw_default_refutes : ploadable raw_default_tree = false /\ no_builtin raw_default_tree = true /\ f7_gap raw_default_tree = false
+  /\ exists j, dump ["w"] raw_default_tree = Done j /\ forall fuel, validates_doc fuel j <> Some true.
 Proof.
   repeat split; try (vm_compute; reflexivity). eexists. split; [vm_compute; reflexivity|].
   apply (verdict_unique 64 _ false). vm_compute. reflexivity.
 Qed.
 
-Lemma f8_object_refutes : ploadable f8_object_witness = false /\ no_builtin f8_object_witness = true /\ f7_gap f8_object_witness = false
-  /\ f6_gap ["w"] None f8_object_witness = false /\ dump ["w"] f8_object_witness = Raised ErrNotSerializable.
+Lemma object_default_refutes : ploadable object_default_tree = false /\ no_builtin object_default_tree = true
+  /\ f7_gap object_default_tree = false /\ dump ["w"] object_default_tree = Raised ErrNotSerializable.
 Proof. repeat split; vm_compute; reflexivity. Qed.
-
-Theorem dump_exact_full : forall cwd t,
-  placed_top t = true -> no_builtin t = true ->
-  if f6_gap cwd None t then dump cwd t = Raised ErrRelFilepath
-  else if phas_object t then dump cwd t = Raised ErrNotSerializable
-  else exists j, dump cwd t = Done j.
-Proof.
-  intros cwd t Hp Hb. destruct (f6_gap cwd None t) eqn:H6.
-  - destruct t as [name target path lineno endlineno|spec name path fp lineno endlineno doc labels members]; [discriminate|].
-    destruct fp as [f| |]; try discriminate.
-    pose proof (derive_exact cwd f _ None (placed_top_spec _ _ _ _ _ _ _ _ _ Hp) Hb I) as X. rewrite H6 in X.
-    unfold dump. cbn [derive_top]. now rewrite X.
-  - destruct (phas_object t) eqn:Ho.
-    + exact (dump_object cwd t Hp Hb H6 Ho).
-    + pose proof (dump_exact cwd t Hp Hb Ho) as X. now rewrite H6 in X.
-Qed.
